@@ -372,12 +372,17 @@ def _hetero(prog, ci, cag, psd_fn):
     dk = P.state.get("self.dK")
     loops = [l for l in psd_fn.body if isinstance(l, ast.For) and any(isinstance(n, ast.Call) and U(n.func) == "self.dK.append" for n in ast.walk(l))]
     okd = False
-    if dk is not None and dk is not UNKNOWN and len(dk) == 1 and dk[0][0] == "each" and dk[0][1] == ("iter", "range(self.n_params)") and len(loops) == 1:
+    npar_terms = {"range(self.n_params)"} | {f"range({U(P.rz.term(s_.value, s_))})" for s_ in ast.walk(psd_fn)
+                                             if isinstance(s_, ast.Assign) and U(s_.targets[0]) == "self.n_params"}
+    if dk is not None and dk is not UNKNOWN and len(dk) == 1 and dk[0][0] == "each" and dk[0][1][0] == "iter" \
+            and dk[0][1][1] in npar_terms and len(loops) == 1:
         mat = dk[0][2]
         lp = loops[0]
         iv = U(lp.target)
+        sizes = [t_[6:-1] for t_ in npar_terms]
         fresh = [st for st in lp.body if isinstance(st, ast.Assign) and U(st.targets[0]) == mat
-                 and (pmatch(st.value, "zeros([self.n_params, self.n_params])") is not None or pmatch(st.value, "zeros((self.n_params, self.n_params))") is not None)]
+                 and any(pmatch(P.rz.term(st.value, st), f"zeros([{a_}, {b_}])") is not None or pmatch(P.rz.term(st.value, st), f"zeros(({a_}, {b_}))") is not None
+                         for a_ in sizes for b_ in sizes)]
         stores = [st for st in ast.walk(lp) if isinstance(st, (ast.Assign, ast.AugAssign)) and isinstance(getattr(st, "targets", [getattr(st, "target", None)])[0], ast.Subscript)
                   and U(getattr(st, "targets", [getattr(st, "target", None)])[0].value) == mat]
         okd = (len(fresh) == 1 and len(stores) == 1 and isinstance(stores[0], ast.Assign) and U(stores[0].targets[0].slice) == f"({iv}, {iv})"
@@ -497,6 +502,29 @@ def _composite(prog):
     lay = L.layout_of(rets[0].value, rets[0]) if len(rets) == 1 else None
     name = U(rets[0].value) if len(rets) == 1 else "?"
     ok = lay in ((("item", f"slice(0, {ln}[0])"), ("each", ("iter", f"{ln}[1:]"), f"slice({name}[-1].stop, {name}[-1].stop + va0)")),)
+    if not ok and lay is not None and lay is not UNKNOWN and len(lay) == 2 and lay[0] == ("item", f"slice(0, {ln}[0])") \
+            and lay[1][0] == "each" and lay[1][1] == ("iter", f"{ln}[1:]"):
+        # running-offset form:  a = lengths[0];  for L in lengths[1:]: append(slice(a, a + L)); a = a + L
+        bb = pmatch(ast.parse(lay[1][2], mode="eval").body, "slice(_a, _a + va0)")
+        loops_ = [l_ for l_ in sb.body if isinstance(l_, ast.For)]
+        if bb is not None and len(loops_) == 1 and isinstance(ast.parse(bb["_a"], mode="eval").body, ast.Name):
+            a_ = bb["_a"]
+            lv_ = U(loops_[0].target)
+            inits = [s_ for s_ in sb.body if isinstance(s_, ast.Assign) and U(s_.targets[0]) == a_]
+            app_pos = [k_ for k_, s_ in enumerate(loops_[0].body) if isinstance(s_, ast.Expr) and isinstance(s_.value, ast.Call)
+                       and isinstance(s_.value.func, ast.Attribute) and s_.value.func.attr == "append"]
+            rz_sb = Resolver(sb)
+            upd = [(k_, s_) for k_, s_ in enumerate(loops_[0].body) if isinstance(s_, (ast.Assign, ast.AugAssign))
+                   and U(s_.targets[0] if isinstance(s_, ast.Assign) else s_.target) == a_]
+            ok_upd = False
+            if len(upd) == 1 and len(app_pos) == 1 and upd[0][0] > app_pos[0]:
+                u_ = upd[0][1]
+                if isinstance(u_, ast.AugAssign):
+                    ok_upd = isinstance(u_.op, ast.Add) and U(u_.value) == lv_
+                else:
+                    t_ = rz_sb.term(u_.value, u_, keep=(a_,))
+                    ok_upd = pmatch(t_, f"{a_} + {lv_}") is not None
+            ok = len(inits) == 1 and pmatch(inits[0].value, f"{ln}[0]") is not None and ok_upd
     out.append(struct_ob("composition-order", "inference.gp.covariance.slice_builder", ok,
                          f"slices must be contiguous: start_(k+1) = stop_k, length = the component's parameter count: {show(lay)}", COV, sb.lineno))
     # change-point layout: kernels first, then (location, width) pairs; bounds interleaved the same way
@@ -528,6 +556,13 @@ def _composite(prog):
                 and "width" in ast.unparse(pair.elts[1])
         except SyntaxError:
             okg = False
+    if not okg and lab is not None and lab is not UNKNOWN and len(lab) == 2:
+        # the same thing without the intermediate list of groups: the labels are extended group by group
+        k_part, c_part = lab
+        okg = (k_part[0] == "flat" and k_part[1][1] == "self.cov" and len(k_part[2]) == 1 and k_part[2][0][0] in ("each", "splice")
+               and ".hyperpar_labels" in repr(k_part[2][0])
+               and c_part[0] == "flat" and c_part[1] == ("iter", "range(self.n_kernels - 1)") and len(c_part[2]) == 2
+               and all(x[0] == "item" for x in c_part[2]) and "location" in c_part[2][0][1] and "width" in c_part[2][1][1])
     if not okg:
         why.append(f"labels are not the kernels' labels followed by (location, width) per change-point: {show(lab)}; groups {show(groups)}")
     ehb = cp.methods["estimate_hyperpar_bounds"]
